@@ -76,6 +76,17 @@ theorem solicited_correlated_idle {cfg : OCfg} (hdb : DbContract) {a a' : Acc} (
     ∃ l, a'.2 = a.2 ++ l ∧ (∀ o ∈ l, Correlated f.src ctrl func o) ∧ (txFrags l).length ≤ 1 :=
   @Dnp3.Proofs.C12.solicited_correlated_idle cfg hdb a a' h f ctrl func objects raw hreq series hh
 
+/-- D14 repaired: a repeat of the last non-READ request (same sequence number, same octets) handled from idle
+    is answered with the STORED response record verbatim (`repeat_solicited`: no IIN re-OR, no forced CON) —
+    exactly one transmission, to the requester; nothing is executed again; the record of the request stays as it
+    is, and the series recorded with it is the confirm wait that is entered again -/
+theorem idle_repeat_echo_verbatim {a a' : Acc} {f : Frag} {ctrl : AppCtrl} {func : Nat}
+    {objects : Except Nat (List ObjHdr)} {raw : List Nat} {series : Option Series} {r : Resp}
+    (hc : classify a.1 f ctrl func objects = .repeatNonRead (some r))
+    (hh : handleRequestFromIdle a f ctrl func objects raw = some (a', series)) :
+    SentOne a.2 a'.2 f.src r ∧ a'.1.lastReq = a.1.lastReq ∧ series = a.1.lastReq.bind (·.series) :=
+  @Dnp3.Proofs.C12.idle_repeat_echo_verbatim a a' f ctrl func objects raw series r hc hh
+
 /-- **continuation fragments are correlated**: the fragment `solContinuation` transmits carries
     `seq4Next` of the confirmed sequence number, FIR clear, UNS clear, function 0x81, to the confirmer -/
 theorem continuation_correlated {s : OState} {out : List OOut} {ecsn dst : Nat} {a2 : Acc} {r2 : Resp}
@@ -134,16 +145,39 @@ theorem silent_functions_partial {a a' : Acc} {f : Frag} {ctrl : AppCtrl} {func 
     series = none ∧ CbOnly a.2 a' ∧ txFrags a'.2 = txFrags a.2 :=
   @Dnp3.Proofs.C12.silent_functions_partial a a' f ctrl func hs raw series hf hb hnodup hh
 
-/-- (a) a fragment whose application header is rejected (unknown function code, a response
+/-- (a) a unicast fragment (`broadcast = false`, the third argument: `f.broadcast.isSome` of the fragment,
+    `popRequest_headerError`) whose application header is rejected (unknown function code, a response
     function code, FIR/FIN not both set, UNS on a non-confirm) is answered — when the IIN can be
     computed at all — with exactly one solicited response carrying the request's sequence number
     and IIN2.0 NO_FUNC_CODE_SUPPORT -/
 theorem rejection_flagged_header {a : Acc} {dst seq : Nat} {x : OState × Nat × Nat}
     (hg : getResponseIin a.1 = some x) :
-    ∃ a' r, writeErrorResponse a dst (some seq) = some a' ∧ SentOne a.2 a'.2 dst r ∧
+    ∃ a' r, writeErrorResponse a dst false (some seq) = some a' ∧ SentOne a.2 a'.2 dst r ∧
       r.func = 0x81 ∧ r.ctrl.seq = seq ∧ r.ctrl.fir = true ∧ r.ctrl.fin = true ∧ r.ctrl.uns = false ∧
       HasBits r.iin2 iin2NoFunc :=
   @Dnp3.Proofs.C12.rejection_flagged_header a dst seq x hg
+
+/-- (a, complement; D6 repaired) a BROADCAST fragment whose application header is rejected is never answered:
+    nothing is transmitted, nothing changes, and the session does not panic -/
+theorem rejection_header_broadcast_silent (a : Acc) (dst : Nat) (seq : Option Nat) :
+    writeErrorResponse a dst true seq = some a :=
+  @Dnp3.Proofs.C12.rejection_header_broadcast_silent a dst seq
+
+/-- the header-error path is taken exactly for `parseRequest = .headerError` of a fragment from an accepted
+    master (`hm`; D6 repaired: the fragments of any other master are dropped whatever they contain,
+    `popRequest_foreign`); the `Bool` handed on says whether the fragment was a broadcast -/
+theorem popRequest_headerError {s : OState} {f : Frag} {seq : Nat} (hp : s.pending = some f)
+    (hm : s.cfg.anymaster = true ∨ f.src = s.cfg.master)
+    (he : parseRequest f.data = .headerError seq) :
+    popRequest s = (s, .error f.src f.broadcast.isSome (some seq)) :=
+  @Dnp3.Proofs.C12.popRequest_headerError s f seq hp hm he
+
+/-- (complement; D6 repaired) a pending fragment of a foreign master — well-formed request or header-level
+    error alike — is dropped: nothing is handed to the session, so nothing is answered -/
+theorem popRequest_foreign {s : OState} {f : Frag} (hp : s.pending = some f)
+    (ha : s.cfg.anymaster = false) (hm : f.src ≠ s.cfg.master) :
+    popRequest s = ({ s with pending := none }, .nothing) :=
+  @Dnp3.Proofs.C12.popRequest_foreign s f hp ha hm
 
 theorem parseObjects_error (isRead : Bool) (fuel : Nat) (d : List Nat) (e : Nat)
     (h : parseObjects isRead fuel d = .error e) :
